@@ -99,6 +99,7 @@ class DAGRunConcurrentManager(DAGRunManagerLike):
     _lock_manager: DAGConcurrentManagerLock = field(init=False)
     _memorization_store: t.Dict[t.Any, t.Any] = field(default_factory=dict)
     _coro_tasks: t.Set[asyncio.Task] = field(default_factory=set)
+    _additional_data: t.Dict[NodeId, t.Any] = field(default_factory=dict)
     _alias_run_method: str = 'run'
 
     def __post_init__(self) -> None:
@@ -210,9 +211,11 @@ class DAGRunConcurrentManager(DAGRunManagerLike):
                     )
 
         else:
-            kwargs = self.ctx.input_kwargs
+            # The dict belongs to the caller, it must not be modified
+            kwargs = dict(self.ctx.input_kwargs)
 
-        additional_data = self.dag.graph.nodes[node_id].get(NodeField.additional_data)
+        # The data belongs to this run only, hence it cannot be kept in the graph that is shared between runs
+        additional_data = self._additional_data.get(node_id)
 
         if additional_data is not None:
             kwargs[NodeField.additional_data] = additional_data
@@ -754,8 +757,7 @@ class DAGRunConcurrentManager(DAGRunManagerLike):
             name = f'Recurrent-subgraph[attempt={current_iter}] {start_from_node_id} --> {node_id}'
             logger.debug('Executing the %s', name)
 
-            start_node = self.dag.graph.nodes[start_from_node_id]
-            start_node[NodeField.additional_data] = node_result.data
+            self._additional_data[start_from_node_id] = node_result.data
 
             node_result = await self._run_dag(dag=recurrent_subgraph)
 
